@@ -29,7 +29,7 @@ ASSUMPTIONS = [
     "handler instances are not shared between threads (the library documents that a handler does not support concurrent use)",
 ]
 
-H_KINDS = ["completed", "cancel_S", "cancel_D", "limit", "abandon", "stuck_reset", "lossy"]
+H_KINDS = ["completed", "cancel_S", "cancel_D", "limit", "abandon", "stuck_reset", "lossy", "reset_undrained"]
 T_KINDS = ["empty", "small", "multi_loss", "multi_random", "md_only", "cancelled", "silenced"]
 
 
@@ -59,10 +59,16 @@ def gen_script(rng, nh=None):
     hist = []
     for _ in range(nh if nh is not None else rng.choice([1, 1, 2, 3])):
         hist.append({"kind": rng.choice(H_KINDS), "mode": rng.choice(["ack", "unack"]), "closure": rng.random() < 0.5, "size": rng.choice([0, 3, 9, 25]),
-                     "seed": rng.randrange(1 << 30), "at": rng.randrange(1, 9), "idw": rng.choice([2, 2, 1, 4])})
+                     "seed": rng.randrange(1 << 30), "at": rng.randrange(1, 9), "idw": rng.choice([2, 2, 1, 4]), "mib": gen_mib(rng)})
     t = {"kind": rng.choice(T_KINDS), "mode": rng.choice(["ack", "unack"]), "closure": rng.random() < 0.5, "seed": rng.randrange(1 << 30), "at": rng.randrange(1, 7),
-         "idw": rng.choice([2, 2, 1, 4])}
+         "idw": rng.choice([2, 2, 1, 4]), "mib": gen_mib(rng)}
     return {"base": base, "hist": hist, "t": t}
+
+
+def gen_mib(rng):
+    """values of the remote entity configuration which the user may change between two transactions"""
+    return {"positive_ack_timer_interval_seconds": rng.choice([1.0, 1.0, 0.3, 2.5]), "nak_timer_interval_seconds": rng.choice([1.0, 1.0, 0.4, 3.0]),
+            "positive_ack_timer_expiration_limit": rng.choice([2, 2, 3]), "nak_timer_expiration_limit": rng.choice([2, 2, 3])}
 
 
 def gen_cases(tier, seed):
@@ -80,6 +86,10 @@ def gen_cases(tier, seed):
             # several handlers of one entity: same MIB objects (remote entity configuration table) for all of them
             for sc in scripts[1:]:
                 sc["base"] = dict(scripts[0]["base"])
+            for sc in scripts:
+                # the shared MIB objects stay as they are while the siblings run (a change would legitimately be seen by all of them)
+                for spec in sc["hist"] + [sc["t"]]:
+                    spec["mib"] = None
         cases.append({"t": "siblings", "scripts": scripts, "order_seed": rng.randrange(1 << 30), "share_mib": share})
     n = 6 if tier == "quick" else 60
     for i in range(n):
@@ -98,6 +108,9 @@ def setup_transaction(w: World, spec, kind, content_tag):
     w.cfg["size"] = size
     # the width of the destination id given in the put request may differ from request to request (the MIB is keyed by value)
     w.dst_id = ByteFieldGenerator.from_int(spec.get("idw", 2), 2)
+    for rc in (w.rc_dst_at_src, w.rc_src_at_dst):
+        for k, v in (spec.get("mib") or {}).items():
+            setattr(rc, k, v)
     w.cfg["req_mode"] = spec["mode"]
     w.cfg["req_closure"] = spec["closure"]
     w.cfg["mode"] = spec["mode"]  # (oracle helpers read the effective mode from here)
@@ -137,7 +150,35 @@ def t_trace(w: World, mark: int):
             out.append((e["side"], "exc", e["api"], e["etype"], e["msg"][:60]))
         elif k == "action":
             out.append((e["side"], "action", e["what"], e["res"]))
+        elif k == "clock":
+            out.append(("-", "clock", e["advanced_ms"]))  # virtual time that had to pass before the next timer expired
     return out
+
+
+def undrained_reset(w: World, r: Runner):
+    """the user gives up on a transaction: one more call on each side whose PDUs are never retrieved, then reset()"""
+    for ep, wire_q in ((w.D, r.s2d), (w.S, r.d2s)):
+        ep.autodrain = False
+        try:
+            if wire_q:
+                raw = wire_q.pop(0)
+                try:
+                    ep.sm(wire.parse(raw), {"kind": wire.kind_of(raw)})
+                except Exception:  # noqa: BLE001
+                    pass
+            else:
+                try:
+                    ep.sm()
+                except Exception:  # noqa: BLE001
+                    pass
+            ep.reset()
+        finally:
+            ep.autodrain = True
+        ep.drain()
+        ep.outbox.clear()
+    r.s2d.clear()
+    r.d2s.clear()
+    r.held.clear()
 
 
 def run_history(w: World, hist, stepper=None):
@@ -145,7 +186,7 @@ def run_history(w: World, hist, stepper=None):
     notes = []
     for i, h in enumerate(hist):
         plan, actions, max_exp = setup_transaction(w, h, h["kind"], 100 + i)
-        r = Runner(w, plan=plan, actions=actions, max_expiries=max_exp, max_rounds=1500)
+        r = Runner(w, plan=plan, actions=actions, max_expiries=max_exp, max_rounds=(h["at"] + 1 if h["kind"] == "reset_undrained" else 1500))
         try:
             w.put()
             if stepper is None:
@@ -153,6 +194,8 @@ def run_history(w: World, hist, stepper=None):
             else:
                 for _ in r.steps():
                     stepper()
+            if h["kind"] == "reset_undrained":
+                undrained_reset(w, r)
         except InternalError as e:
             notes.append(f"internal:{type(e.exc).__name__}")
         except Exception as e:  # noqa: BLE001
@@ -264,11 +307,13 @@ def run_siblings_case(case):
                 # run history + T as one generator by re-implementing the loops with yields
                 for hi, h in enumerate(sc["hist"]):
                     plan, actions, max_exp = setup_transaction(w, h, h["kind"], 100 + hi)
-                    r = Runner(w, plan=plan, actions=actions, max_expiries=max_exp, max_rounds=1500)
+                    r = Runner(w, plan=plan, actions=actions, max_expiries=max_exp, max_rounds=(h["at"] + 1 if h["kind"] == "reset_undrained" else 1500))
                     try:
                         w.put()
                         for _ in r.steps():
                             yield
+                        if h["kind"] == "reset_undrained":
+                            undrained_reset(w, r)
                     except (InternalError, Exception):  # noqa: BLE001
                         pass
                     for ep in (w.S, w.D):
@@ -418,4 +463,4 @@ def run_case(case):
 NO_DEV_MODE = True  # -X dev slows the LINE callbacks down by an order of magnitude
 
 REQUIRED = {"fresh_vs_reused_equal": 500, "sibling_traces_equal": 300, "thread_traces_equal": 50, "yields_injected": 1000, "sibling_switches": 1000,
-            "hist_completed": 50, "hist_cancel_S": 50, "hist_cancel_D": 50, "hist_limit": 50, "hist_abandon": 50, "hist_stuck_reset": 50, "hist_lossy": 50}
+            "hist_completed": 50, "hist_cancel_S": 50, "hist_cancel_D": 50, "hist_limit": 50, "hist_abandon": 50, "hist_stuck_reset": 50, "hist_lossy": 50, "hist_reset_undrained": 50}
